@@ -75,6 +75,8 @@ pub struct Harness {
     pub backward_jump: bool,
     pub state_hashes: BTreeSet<u64>,
     pub fatal: bool,
+    pub fresh_id: u64,
+    pub snapshot_horizon: Option<u64>,
     pub log: Vec<String>,
     pub verbose: bool,
     pub key_affinity: BTreeMap<(u32, u32, Vec<u8>, u32), u32>,
@@ -180,6 +182,8 @@ impl Harness {
             backward_jump: false,
             state_hashes: BTreeSet::new(),
             fatal: false,
+            fresh_id: 0,
+            snapshot_horizon: None,
             log: Vec::new(),
             verbose: std::env::var("VERIF_VERBOSE").is_ok(),
             key_affinity: BTreeMap::new(),
@@ -197,8 +201,31 @@ impl Harness {
         }
     }
 
+    /// Oracles of other properties that a property's own statement includes (e.g. C14: "new messages
+    /// continue at the next offset, every message that was not deleted is still served exactly as before").
+    /// Under that property's scenario family they are switched on and reported under its id.
+    fn borrowed(&self, prop: &str) -> Option<&'static str> {
+        const TABLE: [(&str, &[&str]); 9] = [
+            ("C13", &WIRE_ORACLE_PROPS),
+            ("C14", &["C01", "C02", "C03"]),
+            ("C15", &["C01"]),
+            ("C18", &["C01", "C02", "C03"]),
+            ("C19", &["C02", "C03", "C05"]),
+            ("C07", &["C02"]),
+            ("C08", &["C02", "C07"]),
+            ("C17", &["C01"]),
+            ("C10", &["C05"]),
+        ];
+        for (owner, list) in TABLE {
+            if self.opts.props.contains(owner) && list.contains(&prop) {
+                return Some(owner);
+            }
+        }
+        None
+    }
+
     pub fn on(&self, prop: &str) -> bool {
-        self.opts.props.contains("*") || self.opts.props.contains(prop) || (self.opts.props.contains("C13") && WIRE_ORACLE_PROPS.contains(&prop))
+        self.opts.props.contains("*") || self.opts.props.contains(prop) || self.borrowed(prop).is_some()
     }
 
     pub fn violate(&mut self, prop: &'static str, oracle: &'static str, tag: impl Into<String>, detail: impl Into<String>) {
@@ -207,13 +234,19 @@ impl Harness {
         }
         let mut tag: String = tag.into();
         let mut prop = prop;
-        if self.opts.props.contains("C13") && prop != "C13" && !self.opts.props.contains("*") {
-            // C13: what the SDK returns must equal what the model predicts from what the SDK was asked to
-            // send — every model-equality oracle is a wire-agreement oracle under the C13 value swarm
-            tag = format!("{prop}.{oracle}:{tag}");
-            prop = "C13";
+        let mut oracle = oracle;
+        if !self.opts.props.contains(prop) && !self.opts.props.contains("*") {
+            if let Some(owner) = self.borrowed(prop) {
+                // e.g. C13: what the SDK returns must equal what the model predicts from what the SDK was asked
+                // to send — every model-equality oracle is a wire-agreement oracle under the C13 value swarm
+                tag = format!("{prop}.{oracle}:{tag}");
+                if owner == "C13" && oracle != "no_panic" {
+                    oracle = "exchange_equals_model";
+                }
+                prop = owner;
+            }
         }
-        let v = Violation { prop, oracle: if prop == "C13" && oracle != "no_panic" { "exchange_equals_model" } else { oracle }, tag, detail: detail.into(), op_index: self.op_index };
+        let v = Violation { prop, oracle, tag, detail: detail.into(), op_index: self.op_index };
         if self.verbose {
             eprintln!("[violation] {v:?}");
         }
@@ -456,6 +489,35 @@ impl Harness {
                 }
             }
         }
+        // C18 says nothing about an id whose only stored copy was purged or deleted by retention (the server
+        // remembers it until the next restart and forgets it afterwards): such an id is not sent again
+        let rewritten: Vec<MsgSpec>;
+        let msgs = if self.model.dedup && ids.is_some() {
+            let (sid, tid) = ids.unwrap();
+            let t = &self.model.streams[&sid].topics[&tid];
+            let mut uncertain: BTreeSet<u128> = BTreeSet::new();
+            for p in t.partitions.values() {
+                uncertain.extend(p.purged_ids.iter().copied());
+                uncertain.extend(p.msgs.iter().take(p.first_retained as usize).map(|m| m.id));
+            }
+            let mut fresh = self.fresh_id;
+            rewritten = msgs
+                .iter()
+                .map(|m| {
+                    let mut m = m.clone();
+                    if m.id != 0 && uncertain.contains(&m.id) {
+                        fresh += 1;
+                        m.id = (1u128 << 100) + fresh as u128;
+                        self.stats.probe("dedup_uncertain_id_replaced");
+                    }
+                    m
+                })
+                .collect();
+            self.fresh_id = fresh;
+            &rewritten[..]
+        } else {
+            msgs
+        };
         let mut messages: Vec<Message> = msgs.iter().map(|m| m.to_message()).collect();
         let lo = self.sim.now_micros();
         let seq0 = self.sim.steps();
@@ -579,7 +641,12 @@ impl Harness {
         }
         let Some(target) = targets.iter().next().copied() else {
             // accepted, but nothing visible anywhere
-            let accepted = self.dedup_filter(sid, tid, None, msgs);
+            // with deduplication on, a send whose every id is already stored in the partition it went to
+            // legitimately leaves no trace
+            let accepted = candidates.iter().map(|p| self.dedup_filter(sid, tid, Some(*p), msgs)).min().unwrap_or(msgs.len());
+            if accepted == 0 && self.model.dedup {
+                self.stats.probe("dedup_whole_send_dropped");
+            }
             let tainted = match part {
                 Part::Id(p) => topic_model.partitions.get(p).map(|x| x.tainted).unwrap_or(false),
                 _ => topic_model.partitions.values().any(|x| x.tainted),
@@ -1115,6 +1182,7 @@ impl Harness {
         self.stats.restarts += 1;
         // always compared: a restart that changes what is served is reported under its own property,
         // and for every other check it marks the affected partitions so nothing is mis-attributed
+        self.snapshot_horizon = None;
         let before = Some(crate::snapshot::take(self).await);
         // drop client connections first: the server sees them close
         for c in 0..self.clients.len() {
@@ -1170,6 +1238,7 @@ impl Harness {
             return;
         }
         self.stats.restarts += 1;
+        self.snapshot_horizon = None;
         let before = crate::snapshot::take(self).await;
         for c in 0..self.clients.len() {
             self.clients[c] = None;
